@@ -7,7 +7,8 @@ from streamlib import *
 import pipelib as PL
 import gen_json as G
 
-DEVS = ["DevLimiterNoComplete", "DevPopOldest", "DevTruncAll", "DevSwallowBreak", "DevSplitLast"]
+DEVS = ["DevLimiterNoComplete", "DevPopOldest", "DevTruncAll", "DevSwallowBreak", "DevSplitLast", "DevSortBreakStops", "DevSortEmptyNoComplete",
+        "DevSpaceCountsKeyless"]
 
 
 def pipe_cfg(tag, family, maxrows, invariants=(), props=(), dev=None, live=False, replay=False):
